@@ -93,6 +93,31 @@ PROPS = {
                      'blank / whitespace-only text is rejected by the ZeroDivisionError of the proline-content division (the statement only asks for an exception)'],
         design_ref='2 / C13',
     ),
+    'C14': dict(
+        level='other',
+        functions=['localcider/backend/seqfileparser.py:SequenceFileParser.' + f for f in ('__validSeq', '__final_validation')],
+        lemmas=['n_keep_strict', 'n_keep_nonneg', 'n_star_nonneg'],
+        native='c14',
+        explanation='proved for all lines: __validSeq keeps exactly the residue letters and "*" of a line in order, drops spaces and digits, and raises exactly when another character occurs; '
+                    '__final_validation returns the word unchanged without "*", drops a single final "*", raises exactly for a repeated or non-final "*". '
+                    'NOT under contract: parseSeqFile itself (iteration over the lines of a file: list-of-strings values, str.strip and file I/O are outside the executor\'s value domain) and the '
+                    'file branch of the constructors - the bounded native check on real temporary files stands in for the header handling and the concatenation of lines',
+        assumptions=['parseSeqFile line loop, header detection and file reading: bounded native check only'],
+        design_ref='2 / C14',
+    ),
+    'C12': dict(
+        level='proof',
+        functions=['localcider/backend/sequenceComplexity.py:SequenceComplexity.' + f for f in ('reduce_alphabet', 'reduce_alphabet#badsize', 'reduce_alphabet#user')] +
+                  [SEQ + 'get_reducedAlphabetSequence', SP + 'get_reduced_alphabet_sequence'],
+        lemmas=[], extra=['C12'],
+        native='c12',
+        assumptions=['the per-residue map of each predefined size is EXTRACTED on every run by executing the real reduce_alphabet on the twenty one-letter sequences; '
+                     'the finite facts about it (documented partition, group count, representative is a member, idempotent, returned alphabet = representatives) are decided by evaluation, '
+                     'and the loop contracts prove that sequences of every length are mapped residue by residue with exactly that map (length preserved, homomorphism)',
+                     'documented partitions are the transcription in /verif/contracts/tables.py of the reduce_alphabet docstring',
+                     'user alphabets: total dictionaries over the 20 residues with one-character values are covered by proof; missing keys, non-dict and multi-character values by the native check'],
+        design_ref='2 / C12',
+    ),
 }
 
 _BOUNDED_ONLY = ('deductive contracts for this property are not yet discharged in this build: the claim rests on the bounded native '
